@@ -134,6 +134,7 @@ class Run:
         self.liq = (D(sc["liq"]["limit"]), D(sc["liq"]["impact"])) if sc.get("liq") else None
         self.lend = sc.get("lend")
         self.init = {k: D(v) for k, v in sc["init"].items()}
+        self.opening_debt = {k: -v for k, v in self.init.items() if v < 0}
 
     # ------------------------------------------------------------------------------------
     def v(self, prop: str, kind: str, msg: str, mechanism: str = "") -> None:
@@ -143,7 +144,21 @@ class Run:
 
     def pair_prec(self, pname: str) -> Tuple[int, int]:
         b, qs = pname.split("/")
+        if pname in self.sc.get("pair_prec", {}):
+            bp, qp = self.sc["pair_prec"][pname]
+            return bp, qp
         return self.symbols[b], self.symbols[qs]
+
+    def grid(self, s: str) -> Optional[int]:
+        """Finest precision any configured pair or the symbol itself gives `s`: the grid of its balances."""
+        p = self.symbols.get(s)
+        for pname, (bp, qp) in self.sc.get("pair_prec", {}).items():
+            b, qs = pname.split("/")
+            if s == b:
+                p = max(p, bp) if p is not None else bp
+            if s == qs:
+                p = max(p, qp) if p is not None else qp
+        return p
 
     def cond(self, symbol: str) -> Optional[Dict[str, Any]]:
         if not self.lend:
@@ -203,7 +218,7 @@ class Run:
             p = Pair(b, qs)
             self.pairs[f"{b}/{qs}"] = p
             if i in sc.get("explicit_pair_info", []):
-                self.e.set_pair_info(p, PairInfo(self.symbols[b], self.symbols[qs]))
+                self.e.set_pair_info(p, PairInfo(*self.pair_prec(f"{b}/{qs}")))
         for pname, lst in self.bars_by_pair.items():
             p = self.pairs[pname]
             src = event.FifoQueueEventSource()
@@ -867,7 +882,9 @@ class Run:
             if oi.amount_filled != oi.amount:
                 self.v("C05", "partial_fill_of_market_or_stop", tag)
         # C08 grid of the fill itself (fees per symbol, each on its own symbol's grid)
-        fees_ok = all(val == q(val, self.symbols.get(sym, qp), decimal.ROUND_DOWN) for sym, val in oi.fees.items())
+        b_, q_ = pname.split("/")
+        fees_ok = all(val == q(val, qp if sym == q_ else bp if sym == b_ else self.symbols.get(sym, qp), decimal.ROUND_DOWN)
+                      for sym, val in oi.fees.items())
         if db != q(db, bp, decimal.ROUND_DOWN) or dq != q(dq, qp, decimal.ROUND_DOWN) or not fees_ok:
             self.v("C08", "fill_off_grid", f"{tag} fees {oi.fees}: not multiples of 1e-{bp} / 1e-{qp}")
         self.sig.add(("fill", kind, m["side"], "partial" if oi.amount_filled < oi.amount else "full",
@@ -887,10 +904,19 @@ class Run:
             a, h, b = snap.bal.get(s, (ZERO, ZERO, ZERO))
             if a < 0 or h < 0 or b < 0:
                 self.v("C02", "negative_balance", f"{s}: available {a} hold {h} borrowed {b} at {where}")
-            if b != open_principal.get(s, ZERO) and not snap.loans_stale:
+            debt0 = self.opening_debt.get(s, ZERO)
+            if b != open_principal.get(s, ZERO) + debt0 and not snap.loans_stale:
                 self.v("C02", "borrowed_ne_open_principal",
-                       f"{s}: borrowed {b} but open loans sum to {open_principal.get(s, ZERO)} at {where}")
-            p = self.symbols.get(s)
+                       f"{s}: borrowed {b} but open loans sum to {open_principal.get(s, ZERO)}"
+                       f"{' plus the opening debt of ' + str(debt0) if debt0 else ''} at {where}")
+            elif debt0 and not snap.loans_stale and not self.stats["opening_debt_reported"]:
+                # the literal statement (borrowed == open principal) fails for the part the account was opened with
+                self.stats["opening_debt_reported"] += 1
+                self.v("C02", "borrowed_ne_open_principal",
+                       f"{s}: account opened with initial balance {-debt0}: borrowed {b} but open loans sum to "
+                       f"{open_principal.get(s, ZERO)} at {where} (no loan stands for the opening debt; it can never be repaid)",
+                       mechanism="opening_debt_has_no_loan")
+            p = self.grid(s)
             if p is not None and not self.offgrid_loans:
                 for nm, val in (("available", a), ("hold", h), ("borrowed", b)):
                     if val != q(val, p, decimal.ROUND_DOWN):
@@ -986,7 +1012,7 @@ class Run:
 
     def check_fees(self, oid, m, o) -> None:
         b, qs = m["pair"].split("/")
-        qp = self.symbols[qs]
+        qp = self.pair_prec(m["pair"])[1]
         self.stats["fee_checks"] += 1
         if self.fee and o.quote_amount_filled > 0:
             f = q(max(o.quote_amount_filled * self.fee[0] / 100, self.fee[1]), qp, decimal.ROUND_UP)
